@@ -183,6 +183,11 @@ pub struct Replay {
 
 /// Run the real binary on `files` (stem -> source), each passed as its own root, under a forced schedule.
 pub fn replay(files: &[(String, String)], schedule: &[String], lang: Lang, multi: bool, threads: usize, extra_env: &[(&str, String)]) -> Replay {
+    replay_layout(files, schedule, lang, multi, false, threads, extra_env)
+}
+
+/// As `replay`; with `same_crate` all files of a multi-file run belong to one crate (one output file, one fold bucket).
+pub fn replay_layout(files: &[(String, String)], schedule: &[String], lang: Lang, multi: bool, same_crate: bool, threads: usize, extra_env: &[(&str, String)]) -> Replay {
     let sc = Scratch::new("e3");
     let mut args = cli::lang_args(lang);
     let out = if multi { sc.path("out") } else { sc.path(&format!("out/types.{}", lang.ext())) };
@@ -190,14 +195,20 @@ pub fn replay(files: &[(String, String)], schedule: &[String], lang: Lang, multi
     args.extend([s(if multi { "-d" } else { "-o" }), out.to_string_lossy().into_owned()]);
     for (stem, src) in files {
         // multi-file mode derives the crate from the directory above `src`
-        let rel = if multi { format!("ws/crate_{stem}/src/{stem}.rs") } else { format!("ws/{stem}.rs") };
+        let rel = match (multi, same_crate) {
+            (true, true) => format!("ws/crate_one/src/{stem}.rs"),
+            (true, false) => format!("ws/crate_{stem}/src/{stem}.rs"),
+            _ => format!("ws/{stem}.rs"),
+        };
         let p = sc.write(&rel, src.as_bytes());
         args.push(p.to_string_lossy().into_owned());
     }
     // the order of the actual enqueue operations is fixed by waiting for `sent:<f>` before the next event
-    let expanded: Vec<String> = schedule.iter().flat_map(|l| match l.strip_prefix("send:") {
-        Some(f) => vec![l.clone(), format!("sent:{f}")],
-        None => vec![l.clone()],
+    // `send-unconfirmed:<f>` releases the walker without waiting for its send to return (it may block on a full channel)
+    let expanded: Vec<String> = schedule.iter().flat_map(|l| match (l.strip_prefix("send:"), l.strip_prefix("send-unconfirmed:")) {
+        (Some(f), _) => vec![l.clone(), format!("sent:{f}")],
+        (_, Some(f)) => vec![format!("send:{f}")],
+        _ => vec![l.clone()],
     }).collect();
     let sched = expanded.join(",");
     let mut env: Vec<(&str, String)> = vec![("TYPESHARE_VERIF_SCHEDULE", sched.clone()), ("TYPESHARE_VERIF_THREADS", threads.to_string()), ("TYPESHARE_VERIF_TRACE", "1".into())];
